@@ -1004,7 +1004,9 @@ class t2listing(object):
                 # convert keys to indices as necessary, and expand table names:
                 tablename = tablename_from_specification(tspec)
                 if tablename in tables:
-                    if isinstance(key, int): index, reverse = key, False
+                    if isinstance(key, int):
+                        index, reverse = key, False
+                        if index < 0: index += tables[tablename].num_rows # as for table[key]
                     else:
                         index, reverse = None, False
                         if key in tables[tablename].row_name:
